@@ -22,14 +22,20 @@ CANDIDATES = ['plain.h', 'sp ace.h', 'ha#sh.h', 'do$llar.h', 'per%cent.h',
               'am&p.h', "quo'te.h", 'st*ar.h', 'br[ack].h', 'sub dir/in.h']
 
 
-def gen_cfg(n, seed, maxedits):
-    return ('CONSTANTS S = {"s1", "s2"} H = {"h1", "h2", "h3"} MaxEdits = %d '
+HSET = {False: 'H = {"h1", "h2", "h3"} Pch = ""',
+        True: 'H = {"h0", "h1", "h2"} Pch = "h0"'}
+
+
+def gen_cfg(n, seed, maxedits, pch=False):
+    return ('CONSTANTS S = {"s1", "s2"} %s MaxEdits = %d '
             'NSeeds = %d SeedBase = %d\nSPECIFICATION GenSpec\n'
-            'INVARIANT Emit\nCHECK_DEADLOCK FALSE\n' % (maxedits, n, seed))
+            'INVARIANT Emit\nCHECK_DEADLOCK FALSE\n' % (
+                HSET[pch], maxedits, n, seed))
 
 
-TRACE = ('CONSTANTS S = {"s1", "s2"} H = {"h1", "h2", "h3"} MaxEdits = 1000\n'
-         'SPECIFICATION TraceSpec\nCHECK_DEADLOCK FALSE\n')
+def trace_cfg(pch):
+    return ('CONSTANTS S = {"s1", "s2"} %s MaxEdits = 1000\n'
+            'SPECIFICATION TraceSpec\nCHECK_DEADLOCK FALSE\n' % HSET[pch])
 
 
 def make_wrapper(root):
@@ -74,9 +80,10 @@ class Files:
     def __init__(self, src, names):
         self.src = src
         self.names = names          # h1.. -> concrete name
-        self.ver = {'s1': 1, 's2': 1, 'h1': 1, 'h2': 1, 'h3': 1}
-        self.inc = {'s1': set(), 's2': set()}
-        self.hinc = {'h1': set(), 'h2': set(), 'h3': set()}
+        self.pch = 'h0' if 'h0' in names else None
+        self.ver = dict({'s1': 1, 's2': 1}, **{h: 1 for h in names})
+        self.inc = {'s1': {self.pch} - {None}, 's2': {self.pch} - {None}}
+        self.hinc = {h: set() for h in names}
 
     def path(self, f):
         return os.path.join(self.src, (f + '.c') if f.startswith('s')
@@ -88,7 +95,8 @@ class Files:
         with open(p, 'w') as o:
             if f.startswith('s'):
                 for h in sorted(self.inc[f]):
-                    o.write('#include "%s"\n' % self.names[h])
+                    if h != self.pch:     # bfg9000 passes -include for it
+                        o.write('#include "%s"\n' % self.names[h])
                 o.write('int val_%s(void) { return %d%s; }\n' % (
                     f, self.ver[f], ''.join(' + T_%s' % h
                                             for h in sorted(self.inc[f]))))
@@ -104,14 +112,16 @@ class Files:
 
 def replay(arg):
     hist, backend, names = arg
+    pch = ", pch=precompiled_header(file='pch.h', includes=['.'])" \
+        if 'h0' in names else ''
     p = regen.Proj({'build.bfg': "project('p')\nexecutable('prog', "
-                    "['main.c', 's1.c', 's2.c'], includes=['.'])\n",
+                    "['main.c', 's1.c', 's2.c'], includes=['.']%s)\n" % pch,
                     'main.c': '#include <stdio.h>\nint val_s1(void);'
                     'int val_s2(void);\nint main(void){printf("%d\\n", '
                     'val_s1() + val_s2());return 0;}\n'}, backend=backend)
     try:
         fs = Files(p.src, names)
-        for f in ('s1', 's2', 'h1', 'h2', 'h3'):
+        for f in ['s1', 's2'] + sorted(names):
             fs.write(f)
         wrapper = make_wrapper(p.root)
         p.env['CC'] = wrapper
@@ -234,11 +244,38 @@ def main(argv):
             jobs.append((directed, b, nms))
             jobs.append((directed, b, {'h1': nms['h2'], 'h2': nm,
                                        'h3': nms['h3']}))
+    # precompiled-header mode (Incr.tla with Pch = "h0"): every source is
+    # compiled against pch.h, which may include the other headers
+    npch = n // 3
+    gp = tlc_ok('Incr_Gen', gen_cfg(npch, ck.seed + 7, me, pch=True),
+                timeout=1500)
+    ck.add_model(gp, 'Incr_Gen (pch mode): %d histories' % npch)
+    phists = [p for p in gp.prints if isinstance(p, list) and p and
+              isinstance(p[0], dict) and 'op' in p[0]]
+    if len(phists) < npch // 2:
+        raise MachineryError('Incr_Gen (pch) gave %d histories\n%s' % (
+            len(phists), gp.tail()))
+    pdirected = [B, E('addhinc', 'h0', 'h1'), B, E('modify', 'h1'), B,
+                 E('modify', 'h0'), B, E('addhinc', 'h1', 'h2'), B,
+                 E('modify', 'h2'), B, E('drophinc', 'h0', 'h1'),
+                 E('delete', 'h1'), B, E('clean', ''), B,
+                 E('addinc', 's1', 'h2'), E('modify', 'h2'), B]
+    npl = len(jobs)
+    for i, h in enumerate(phists + [pdirected] * 4):
+        pick = rnd.sample(names_ok, 2)
+        jobs.append((h, 'make' if i % 3 else 'ninja',
+                     {'h0': 'pch.h', 'h1': pick[0], 'h2': pick[1]}))
     res = pmap(replay, jobs, jobs=12)
     traces = [{'id': i + 1, 'events': [
         {k: v for k, v in e.items() if k != 'note'} for e in ev]}
         for i, ev in enumerate(res)]
-    rej, st = validate_traces('Incr_Trace', TRACE, traces, chunk=60)
+    rej, st = validate_traces('Incr_Trace', trace_cfg(False), traces[:npl],
+                              chunk=60)
+    rej2, st2 = validate_traces('Incr_Trace', trace_cfg(True), traces[npl:],
+                                chunk=60)
+    rej.update(rej2)
+    for k in ('distinct', 'generated'):
+        st[k] += st2[k]
     ck.traces = len(traces)
     ck.evaluations = sum(1 for t in traces for e in t['events']
                          if e['op'] == 'build')
@@ -262,7 +299,8 @@ def main(argv):
         else:
             special = 'names=' + special
         ck.report('C07:%s:%s:after=%s:%s' % (
-            info[0], backend, '+'.join(prev), special),
+            info[0], backend, '+'.join(prev), special) + (
+                ':pch' if 'h0' in names else ''),
             '%s (%s): %s expected/observed %s; header names %s; %s' % (
                 info[0], backend, json.dumps(ev)[:300], json.dumps(info[2]),
                 names, ev.get('note', '')),
